@@ -377,3 +377,47 @@ func H_casts() {
 	binds := operands([]string{"a", "c"}, b.conc || heavy || concat)
 	check(min, full, binds, "cast")
 }
+
+// H_prefix_chains: runs of prefix operators apply innermost-first from the operand outwards
+// (`-~$a` is `-(~$a)`), alone, in front of every binary operator and as its right operand.
+func H_prefix_chains() {
+	pre := []string{"-", "!", "~"}
+	p1, p2 := pre[symx.Choose("p1", 3)], pre[symx.Choose("p2", 3)]
+	shape := symx.Choose("shape", 4)
+	var min, full string
+	names := []string{"a"}
+	heavy := false
+	chain := p1 + p2 + "$a"
+	if p1 == "-" && p2 == "-" {
+		chain = "- -$a" // `--$a` is the decrement operator
+	}
+	paren := p1 + "(" + p2 + "$a)"
+	switch shape {
+	case 0:
+		min, full = chain, paren
+	case 1:
+		p3 := pre[symx.Choose("p3", 3)]
+		min, full = p3+" "+chain, p3+"("+paren+")"
+	case 2:
+		b := ops[symx.Choose("op", len(ops))]
+		if b.sym == "**" {
+			return // `-~$a ** $c`: ** binds tighter than the prefixes, covered by H_special / H_casts
+		}
+		heavy = b.level == 10 || b.level == 3 || b.level == 4 || b.level == 5 || b.level == 8
+		names = []string{"a", "c"}
+		min, full = chain+" "+b.sym+" $c", "("+paren+") "+b.sym+" $c"
+	case 3:
+		b := ops[symx.Choose("op", len(ops))]
+		if b.sym == "**" || b.sym == "-" && p1 == "-" {
+			return
+		}
+		heavy = b.level == 10 || b.level == 3 || b.level == 4 || b.level == 5 || b.level == 8
+		if b.sym == "+" && p1 == "!" {
+			heavy = true // int + bool concatenates ("10true"): formatted symbolic numbers are opaque
+		}
+		names = []string{"a", "c"}
+		min, full = "$c "+b.sym+" "+chain, "$c "+b.sym+" ("+paren+")"
+	}
+	binds := operands(names, heavy)
+	check(min, full, binds, "prefix-chain")
+}
